@@ -35,6 +35,8 @@ RULE_DOC = {
     'R11': 'tail expression `E.iter().find(|v| C).map(|w| R)` -> `for i in 0..E.len() { let v = &E[i]; if C { return Some(R) } } None` (std: first element accepted by the predicate; closure bodies verbatim)',
     'R12': 'tail expression `E.iter().any(|v| C)` -> `for i in 0..E.len() { let v = &E[i]; if C { return true } } false`',
     'R13': '`for x in &mut E {` -> `for i in 0..E.len() { let x = &mut E[i];` (std: iter_mut visits the elements in index order)',
+    'R17': '`let v: Vec<T> = E.iter().map(|&x| F).collect();` -> `let mut v = Vec::new(); for i in 0..E.len() { let x = E[i]; v.push(F); }`',
+    'R18': 'tail `(0..n).map(|i| F).collect()` -> `let mut out = Vec::new(); for i in 0..n { out.push(F); } out`',
     'R16': '`let m = E.iter().copied().max().unwrap_or(d);` -> `let mut o = None; for i in 0..E.len() { o = opt_max(o, E[i]) }; let m = o.unwrap_or(d);` (std: the maximum, None when empty; opt_max is a verified helper)',
     'R15': '`let v: Vec<T> = E.windows(2).map(|w| F).collect();` -> `let mut v = Vec::new(); for i in 1..E.len() { let w = &E[i - 1..i + 1]; v.push(F); }` (std: the adjacent pairs in order; F verbatim)',
     'R14': '`let n = E.iter().position(|v| C)?;` -> loop remembering the first index accepted by C, then `let n = found?;`',
@@ -366,6 +368,48 @@ class Piece:
                % (var, elem_ty, ind, m.group(1), ind, var, elem_ty, var, m.group(1), ind, ind, var, var, calls[3][1].strip()))
         self.text = text[:m.start()] + new + text[end + 1:]
         self._fired('R16', 'iter().copied().max().unwrap_or(d) -> fold loop + unwrap_or(d)')
+        return self
+
+    def R17(self, var=None):
+        """`let V: Vec<T> = E.iter().map(|&x| F).collect();` -> `let mut V: Vec<T> = Vec::new(); for i in 0..E.len() { let x = E[i]; V.push(F); }`"""
+        text = self.text
+        code = scan(text)
+        m = re.search(r'let (%s): (Vec<[\w:]+>) = ([\w\.]+?)(?=\s*\.iter\(\))' % (re.escape(var) if var else r'\w+'), text)
+        if not m:
+            raise LostAnchor('rule R17 in %s: `let v: Vec<_> = <seq>.iter().map(|&x| ..).collect()` not found' % self.label)
+        calls, end = self._chain(text, code, m.end())
+        names = [c[0] for c in calls]
+        fm = re.match(r'\s*\|&(\w+)\|\s*(.*)$', calls[1][1], re.S) if len(calls) > 1 else None
+        if names != ['iter', 'map', 'collect'] or not fm or text[end:end + 1] != ';':
+            raise LostAnchor('rule R17 in %s: chain is %s, expected iter/map(|&x| ..)/collect' % (self.label, names))
+        ind = re.match(r'[ \t]*', text[_line_start(text, m.start()):]).group(0)
+        new = ('let mut %s: %s = Vec::new();\n%sfor i__ in 0..%s.len() {\n%s    let %s = %s[i__];\n%s    %s.push(%s);\n%s}'
+               % (m.group(1), m.group(2), ind, m.group(3), ind, fm.group(1), m.group(3), ind, m.group(1), fm.group(2).strip(), ind))
+        self.text = text[:m.start()] + new + text[end + 1:]
+        self._fired('R17', 'iter().map(|&x| ..).collect() -> index loop + push')
+        return self
+
+    def R18(self, elem_ty):
+        """tail `(0..N).map(|i| F).collect()` -> `let mut out: Vec<T> = Vec::new(); for i in 0..N { out.push(F); } out`"""
+        text = self.text
+        code = scan(text)
+        m0 = re.search(r'\bfn\s+\w+', text)
+        bo, ch = body_open(text, code, m0.end())
+        bc = match_close(text, code, bo)
+        ts = tail_start(text, code, bo, bc)
+        mm = re.match(r'\(0\.\.([\w\.]+)\)(?=\s*\.map\()', text[ts:])
+        if not mm:
+            raise LostAnchor('rule R18 in %s: tail is not `(0..N).map(..).collect()`' % self.label)
+        calls, end = self._chain(text, code, ts + mm.end())
+        names = [c[0] for c in calls]
+        fm = re.match(r'\s*\|(\w+)\|\s*(.*)$', calls[0][1], re.S) if calls else None
+        if names != ['map', 'collect'] or not fm or text[end:bc].strip() != '':
+            raise LostAnchor('rule R18 in %s: chain is %s' % (self.label, names))
+        ind = re.match(r'[ \t]*', text[_line_start(text, ts):]).group(0)
+        new = ('let mut out__: Vec<%s> = Vec::new();\n%sfor %s in 0..%s {\n%s    out__.push(%s);\n%s}\n%sout__'
+               % (elem_ty, ind, fm.group(1), mm.group(1), ind, fm.group(2).strip(), ind, ind))
+        self.text = text[:ts] + new + text[end:]
+        self._fired('R18', '(0..n).map(..).collect() tail -> loop + push')
         return self
 
     def R10(self, method, param_ty, annotate):
